@@ -262,6 +262,24 @@ def gen_program(rng, nblocks=None, heavy_exp=False):
     return bytes(out)
 
 
+def gen_fallthrough_jumpi(rng):
+    """a jumpi whose TARGET is exactly the block that follows it (the fall-through block is also the jump target: the graph
+    has ONE edge standing for both routes), with a condition that is a non-zero constant, zero, computed, or an input"""
+    pre = bytearray()
+    for _ in range(rng.randrange(0, 3)):
+        pre += rng.choice([push(rng.getrandbits(8)), b"\x5b", b"\x58", b"\x50" if False else b"\x5a"])
+    conds = [push(1), push(2), push(0), push(1 << 255), push(R.M - 1), push(0) + b"\x15", push(5) + b"\x15" + b"\x15",
+             push(3) + push(4) + b"\x10", b"", b"\x33", b"\x36" + b"\x15"]
+    cond = rng.choice(conds)
+    base = len(pre) + len(cond)
+    delta = rng.choice([0, 0, 0, 0, 1, -1])             # mostly exactly the following block, sometimes one off
+    tgt = base + 2 + 1 + delta                          # push1 T (2 bytes) + jumpi (1 byte)
+    body = bytes(pre) + cond + push(max(tgt, 0), width=1) + b"\x57"
+    nxt = b"\x5b" if rng.random() < 0.85 else b"\x58"
+    tail = rng.choice([b"\x00", b"\x58\x00", push(7) + b"\x56", b"", b"\x5b\x00"])
+    return body + nxt + tail
+
+
 def gen_double_read(rng):
     """two reads of the same state-dependent quantity (same argument) feeding a comparison that decides a branch or a
     jump target: the machine state may change between the reads (a call in between), so they need not be equal"""
